@@ -141,8 +141,10 @@ MANIFEST = dict(
          'no two different members of one Laue family lie in the asymmetric unit (generated lia proofs, one goal per group element and pair of segments), so the rows '
          'never contain two members of a family; the Laue images of the cones cover Z^3 minus 0 and the traversal is complete for monotone metrics (see C05), so there is '
          'exactly one row per allowed family in the orthorhombic, tetragonal, cubic and hexagonal-axes systems; the expansion used by genhkl_all lists each image once. '
-         'The model is evaluated in Coq against genhkl_unique on every run. Sorting and the stl column are checked on the implementation; completeness elsewhere: known finding F6.',
+         'The model is evaluated in Coq against genhkl_unique on every run. Ordering: the sorting step is modelled on the integer key q(h) (model/HklSort.v), proved to give rows with '
+         'non-decreasing key that are a permutation of the unsorted rows, and the sequence of keys of the implementation\'s rows, in the order returned, is compared with the model\'s in Coq on every run. '
+         'The value of the stl column is checked on the implementation; completeness elsewhere: known finding F6.',
     design_ref='DESIGN.md section 5 C06 and section 10',
-    note='Trusted: as C05. Partial: sortedness and the stl column are decided by search only.',
+    note='Trusted: as C05. Partial: the value of the stl column and the inclusive/exclusive shell bounds are decided by search only; order among rows of equal key is not modelled.',
     technique='Coq: generated lia proofs over Z^3 (fundamental domain) + induction on the traversal model + vm_compute + in-Coq evaluation correspondence; brute-force search',
 )
